@@ -1878,7 +1878,11 @@ bool Node::perform_handshake(const PeerId& peer_id,
     const auto existing = handshake_state_.find(key);
     if (existing != handshake_state_.end()) {
         const auto elapsed = now - existing->second.last_attempt;
-        if (existing->second.success && elapsed < config_.handshake_cooldown) {
+        // Inside the cool-down only a repeat of the handshake that was already validated is
+        // accepted without re-validation; anything else goes through the full checks.
+        if (existing->second.success && elapsed < config_.handshake_cooldown
+            && existing->second.remote_public == remote_public_key
+            && existing->second.remote_pow_nonce == remote_work_nonce) {
             return true;
         }
     }
